@@ -47,3 +47,10 @@ package persistence
 //@   props C03 C08 C14 C16
 //@   trusted
 //@   noeffect
+
+//@ fn (HistoryStore).ReadStatusToday(hs, dagFile) (st, err)
+//@   props C08 C09 C20
+//@   trusted
+//@   modifies heap(alloc), ghost obs.today_err, ghost obs.today
+//@   ensures obs.today_err == err && obs.today == st
+//@   ensures err == nil ==> st != nil
